@@ -26,12 +26,14 @@ package whispertool
 //@   props C01 C03 C04 C07
 //@   requires a != nil
 //@   ensures exact: a.secondsPerPoint >= 0 && a.secondsPerPoint * a.numberOfPoints <= 2147483647 ==> result == a.secondsPerPoint * a.numberOfPoints
+//@   ensures ret: validArchive(*a) && fits32(*a) ==> result == retention(*a)
 
 //@ func (*ArchiveInfo).interval
 //@   props C01 C04
 //@   requires a != nil && a.secondsPerPoint > 0
 //@   ensures next: t + a.secondsPerPoint <= 4294967295 ==> result == a.secondsPerPoint * (t fdiv a.secondsPerPoint + 1)
 //@   ensures wrapped: result == (t - t fmod a.secondsPerPoint + a.secondsPerPoint) fmod 4294967296
+//@   ensures alignup: t + a.secondsPerPoint <= 4294967295 ==> result == alignUp(t, a.secondsPerPoint)
 
 //@ func (*ArchiveInfo).intervalForWrite
 //@   props C01 C02 C03
@@ -169,7 +171,7 @@ package whispertool
 // ---------------------------------------------------------------- layout validation (C07)
 
 //@ spec validArchive(a ArchiveInfo) opaque bool = a.secondsPerPoint > 0 && a.numberOfPoints > 0
-//@ spec retention(a ArchiveInfo) int = a.secondsPerPoint * a.numberOfPoints
+//@ spec retention(a ArchiveInfo) opaque int = a.secondsPerPoint * a.numberOfPoints
 //@ spec pairOK(a ArchiveInfo, b ArchiveInfo) opaque bool = a.secondsPerPoint < b.secondsPerPoint && b.secondsPerPoint % a.secondsPerPoint == 0
 //@        && retention(a) < retention(b) && a.numberOfPoints >= b.secondsPerPoint / a.secondsPerPoint
 //@ spec fits32(a ArchiveInfo) opaque bool = retention(a) <= 2147483647 && a.offset + 12 * a.numberOfPoints <= 4294967295
@@ -177,6 +179,7 @@ package whispertool
 //@        && (forall i :: 0 <= i && i < len(aa) ==> validArchive(aa[i]) && fits32(aa[i]))
 //@        && (forall i :: 0 <= i && i + 1 < len(aa) ==> pairOK(aa[i], aa[i+1]) && aa[i+1].offset == aa[i].offset + 12 * aa[i].numberOfPoints)
 //@        && (forall i :: 0 <= i && i < len(aa) ==> 16 + 12 * len(aa) <= aa[i].offset && aa[i].offset + 12 * aa[i].numberOfPoints <= fileEnd(aa))
+//@        && (forall i :: 0 <= i && i < len(aa) ==> retention(aa[i]) <= retention(aa[len(aa)-1]) && aa[i].secondsPerPoint <= aa[len(aa)-1].secondsPerPoint)
 //@ spec fileEnd(aa ArchiveInfoList) int = aa[len(aa)-1].offset + 12 * aa[len(aa)-1].numberOfPoints
 
 //@ func validateAggregationMethod
@@ -209,6 +212,7 @@ package whispertool
 //@   invariant chain: forall j :: 0 <= j && j + 1 < i ==> aa[j+1].offset == aa[j].offset + 12 * aa[j].numberOfPoints
 //@   invariant within: forall j :: 0 <= j && j < i ==> 16 + 12 * len(aa) <= aa[j].offset && aa[j].offset + 12 * aa[j].numberOfPoints <= off
 //@   invariant offlow: 16 + 12 * len(aa) <= off
+//@   invariant mono: forall j :: 0 <= j && j < i ==> retention(aa[j]) <= retention(aa[i-1]) && aa[j].secondsPerPoint <= aa[i-1].secondsPerPoint
 
 //@ func (ArchiveInfoList).fillOffset
 //@   props C07 C06
@@ -518,3 +522,59 @@ package whispertool
 //@   props C01
 //@   requires S > 0 && N > 0 && d1 fmod S == 0 && d2 fmod S == 0 && d1 != d2 && d1 - d2 < N * S && d2 - d1 < N * S
 //@   ensures distinct: (d1 fdiv S) fmod N != (d2 fdiv S) fmod N
+
+//@ spec retOf(w *Whisper, k int) int = retention(archOf(w, k))
+//@ spec lastOf(w *Whisper) int = len(w.header.archiveInfoList) - 1
+//@ spec clockOK(w *Whisper, now int) bool = now >= retOf(w, lastOf(w)) && now + 2 * stepOf(w, lastOf(w)) <= 4294967295
+//@ spec isBest(w *Whisper, k int, t int, now int) bool = 0 <= k && k <= lastOf(w)
+//@        && (forall j :: 0 <= j && j < k ==> retOf(w, j) < now - t) && (retOf(w, k) >= now - t || k == lastOf(w))
+//@ spec chosen(w *Whisper, id int, k int, t int, now int) bool = (id >= 0 && k == id) || (id == -1 && isBest(w, k, t, now))
+//@ spec badArgs(w *Whisper, id int, from int, until int) bool = from > until || id < -1 || id > lastOf(w)
+//@ spec winLo(w *Whisper, k int, from int, now int) int = max(from, now - retOf(w, k))
+//@ spec winHi(until int, now int) int = min(until, now)
+//@ spec alignUp(t int, s int) opaque int = s * (t fdiv s + 1)
+
+//@ func (*Whisper).FetchFromArchive
+//@   props C04 C01
+//@   requires handleOK(w) && now != 0 && clockOK(w, now)
+//@   requires now - from <= 2147483647
+//@   use alignup_facts(r.secondsPerPoint, from, until) at untilInterval
+//@   use quot_bound(r.secondsPerPoint, from, until, r.numberOfPoints) at untilInterval
+//@   ensures bad_args: badArgs(w, arhiveID, from, until) ==> result0 == nil && result1 != nil && !isio(result1)
+//@   ensures io_only: !badArgs(w, arhiveID, from, until) ==> result1 == nil || isio(result1)
+//@   ensures none_future: !badArgs(w, arhiveID, from, until) && from > now ==> result0 == nil && result1 == nil
+//@   ensures none_old: forall k :: !badArgs(w, arhiveID, from, until) && from <= now && chosen(w, arhiveID, k, from, now) && until < now - retOf(w, k) ==> result0 == nil && result1 == nil
+//@   ensures[C04] shape: forall k :: !badArgs(w, arhiveID, from, until) && from <= now && chosen(w, arhiveID, k, from, now) && until >= now - retOf(w, k) && result1 == nil
+//@                 ==> result0 != nil && result0.step == stepOf(w, k)
+//@                     && result0.fromTime == alignUp(winLo(w, k, from, now), stepOf(w, k))
+//@                     && result0.untilTime == ite(alignUp(winLo(w, k, from, now), stepOf(w, k)) == alignUp(winHi(until, now), stepOf(w, k)),
+//@                                                alignUp(winHi(until, now), stepOf(w, k)) + stepOf(w, k), alignUp(winHi(until, now), stepOf(w, k)))
+//@                     && len(result0.values) == (result0.untilTime - result0.fromTime) / stepOf(w, k)
+
+//@ lemma div_mono(s int, a int, b int)
+//@   props C04 C01
+//@   requires s > 0 && a <= b
+//@   ensures mono: a fdiv s <= b fdiv s
+//@ lemma mul_div(s int, q int)
+//@   props C04 C01
+//@   requires s > 0
+//@   ensures div: (s * q) fdiv s == q
+//@   ensures mod: (s * q) fmod s == 0
+//@ lemma alignup_facts(s int, a int, b int)
+//@   props C04 C01
+//@   requires s > 0 && 0 <= a && a <= b
+//@   use div_mono(s, a, b)
+//@   use mul_div(s, a fdiv s + 1)
+//@   use mul_div(s, b fdiv s + 1)
+//@   use mul_div(s, (b fdiv s + 1) - (a fdiv s + 1))
+//@   ensures gt_a: alignUp(a, s) > a && alignUp(a, s) <= a + s
+//@   ensures gt_b: alignUp(b, s) > b && alignUp(b, s) <= b + s
+//@   ensures mono: alignUp(a, s) <= alignUp(b, s)
+//@   ensures aligned: alignUp(a, s) fmod s == 0 && alignUp(b, s) fmod s == 0 && (alignUp(b, s) - alignUp(a, s)) fmod s == 0
+//@   ensures quot: (alignUp(b, s) - alignUp(a, s)) fdiv s == b fdiv s - a fdiv s
+//@ lemma quot_bound(s int, a int, b int, n int)
+//@   props C04 C01
+//@   requires s > 0 && a <= b && b - a <= n * s && n >= 0
+//@   use mod_unique(a + n * s, s, a fdiv s + n, a fmod s)
+//@   use div_mono(s, b, a + n * s)
+//@   ensures bound: b fdiv s - a fdiv s <= n
